@@ -57,7 +57,9 @@ def c13_crc(ctx):
             ctx.check(R, f, "crc-gate:line", g is not None, "Edit::%s is dominated by the equal edge of the line CRC comparison" % callee_skey(P.term_at(f, pt)).rsplit("::", 1)[-1],
                       "a manifest line is applied to the edit without its CRC having compared equal", pt=pt)
     # the writer prefixes every line with the CRC of exactly the line it writes
-    w = ctx.fn(R, M + "_apply::to_crc_line")
+    # (wherever the line formatter is nested: _apply::to_crc_line today)
+    ws = [g for g in ctx.prog.fns.values() if g.crate == "mani" and re.search(r"(^|::)to_crc_line$", g.skey)]
+    w = ws[0] if len(ws) == 1 else ctx.fn(R, M + "_apply::to_crc_line")
     if w:
         cr = ctx.calls(R, w, r"^crc32c::crc32c$")
         ctx.must_pass(R, w, "crc32c(line)", cr, goals=P.return_points(w))
